@@ -196,7 +196,8 @@ class VCSAPI:
                 continue
 
             # NOTE: only renames/copies have two paths (a name may contain " -> ")
-            is_rename    = status[:1] in ("R", "C") and self.name == 'git'
+            #   and the rename may be in either column ("R ", " R", "DR", ...)
+            is_rename    = "R" in line[:2] or "C" in line[:2]
             rename_match = RENAME_RE.match(filepaths) if is_rename else None
             for filepath in rename_match.groups() if rename_match else [filepaths]:
                 status_items.append((status, _unquote_path(filepath)))
